@@ -179,6 +179,13 @@ type params struct {
 	PADTRetr int    `json:"padt_retries,omitempty"`
 	Hostname string `json:"hostname,omitempty"`
 
+	// odd-fields family: the protocol fields of the terminating RELEASE / DECLINE
+	OddCi   string `json:"odd_ciaddr,omitempty"` // ciaddr: correct | zero | other | free | outside
+	OddReq  string `json:"odd_req,omitempty"`    // requested-address option (DECLINE): same values
+	OddSid  string `json:"odd_sid,omitempty"`    // server-id option: correct | absent | other
+	OddVia  string `json:"odd_via,omitempty"`    // same | direct | relay (how the message arrives, vs how the session was set up)
+	SweepBy string `json:"sweep_by,omitempty"`   // submgr shutdown-during-sweep: idle | session-timeout
+
 	DualStack bool `json:"dual_stack,omitempty"` // submgr: the session also gets an IPv6 address
 
 	// superseded family
